@@ -3,6 +3,8 @@
 package cl
 
 import (
+	"math/big"
+
 	"github.com/ohler55/slip"
 )
 
@@ -54,8 +56,10 @@ func (f *Last) Call(s *slip.Scope, args slip.List, depth int) (result slip.Objec
 	case slip.List:
 		n := 1
 		if 1 < len(args) {
-			if i, ok := args[1].(slip.Integer); ok && 0 <= n {
-				n = int(i.Int64())
+			if i, ok := args[1].(slip.Fixnum); ok && 0 <= i {
+				n = int(i)
+			} else if bi, ok2 := args[1].(*slip.Bignum); ok2 && 0 < (*big.Int)(bi).Sign() {
+				n = len(list)
 			} else {
 				slip.TypePanic(s, depth, "n", args[1], "non-negative integer")
 			}
